@@ -55,20 +55,37 @@ type bstate = {
   mutable dead : bool;             (* model already diverged: stop comparing *)
   mutable pdead : bool;            (* property already failed for this bundle: report only the first failure *)
   mutable bdead : bool;            (* ... except that an exceeded budget is always reported (once) *)
+  mutable noprev : bool;           (* the current life began without a PreviousNodeBlock *)
 }
 
-let hist = function
+(* optional 6th field (naming mule): naming > 0 = the numbered nodes carry nearly colliding endpoint IDs
+   (same authority under the other URI scheme, letter case, prefixes) - node identity stays the number,
+   nothing changes for model and checkers; mule = the Core runs "sensor-mule" around the spray algorithm
+   (sensors = nodes 1, 3, 5): the model does not describe the overlay's exclusion passes (selected sensors
+   are handed back at once, which costs slots of the pass), so these histories are judged by the property's
+   own checkers on the send log and the metadata only, plus: the sent list names exactly the relays that
+   got the bundle (an excluded sensor is neither charged nor listed). *)
+let rec hist = function
+  | [binary; l; sync; nb; evs] -> hist_opt 0 false [binary; l; sync; nb; evs]
+  | [binary; l; sync; nb; evs; opt] ->
+    (match lst opt with
+     | [nm; mu] -> hist_opt (s_int nm) (s_bool mu) [binary; l; sync; nb; evs]
+     | _ -> raise (Bad "hist opt"))
+  | _ -> raise (Bad "hist case")
+and hist_opt naming mule = function
   | [binary; l; sync; nb; evs] ->
     let binary = s_bool binary and ln = s_n l and sync = s_bool sync and nb = s_int nb in
     let conf = { sc_algo = (if binary then SprayBinary else SprayVanilla); sc_L = ln } in
     let bs = Array.init nb (fun _ -> { st = spray_init; created = false; origin = false; dst = 0; init_copies = N0;
                                        outs = []; istored = false; lives = 0; relays_ever = 0;
-                                       prev_rem = None; dead = false; pdead = false; bdead = false }) in
+                                       prev_rem = None; dead = mule; pdead = false; bdead = false; noprev = true }) in
     let res = ref [] in
     let tags = Hashtbl.create 16 in
     let tag t = Hashtbl.replace tags t () in
     tag (if binary then "binary" else "vanilla");
     if sync then tag "sync";
+    if naming > 0 then tag (Printf.sprintf "naming%d" naming);
+    if mule then tag "mule";
     tag (Printf.sprintf "L%s" (dec_of_n ln));
     let evno = ref 0 in
     List.iter (fun ev ->
@@ -107,6 +124,7 @@ let hist = function
                 if s_bool origin && opt_n prev <> None then tag "own-bundle-with-previous-node";
                 st.created <- true; st.origin <- s_bool origin; st.dst <- s_int dst;
                 st.lives <- st.lives + 1;
+                st.noprev <- (opt_n prev = None);
                 st.outs <- [];
                 st.init_copies <- (match opt_n blk with Some k when binary -> k | _ -> if binary || s_bool origin then ln else n_of_int 1);
                 st.prev_rem <- Some st.init_copies
@@ -252,6 +270,20 @@ let hist = function
                                (dec_of_n r) (dec_of_n r') (dec_of_n handed)))
                    | _ -> ());
                 end;
+                (* sensor-mule overlay: the sent list names exactly the relays that got the bundle in this life *)
+                if mule && b.noprev && o_stored then begin
+                  (match o_meta with
+                   | Some (_, sent) ->
+                     let got = List.sort_uniq compare
+                         (List.filter_map (fun s -> if s.sn_ok && not s.sn_direct then Some (int_of_n s.sn_node) else None) b.outs) in
+                     if sent <> got then
+                       pf "spray.mule.sent-list"
+                         (Printf.sprintf "sent list [%s], successful transmissions to relays [%s] (sensors = nodes 1, 3, 5)"
+                            (String.concat " " (List.map string_of_int sent)) (String.concat " " (List.map string_of_int got)))
+                     else if List.exists (fun n -> n = 1 || n = 3 || n = 5) got then tag "mule-sensor-served"
+                     else if got <> [] then tag "mule-relay-served"
+                   | None -> ())
+                end;
                 b.prev_rem <- (match o_meta with Some (r, _) -> Some r | None -> None);
                 b.istored <- o_stored
               end
@@ -261,4 +293,4 @@ let hist = function
     if bad = [] then [Ok_ (List.sort compare (Hashtbl.fold (fun k () acc -> k :: acc) tags []))] else bad
   | _ -> raise (Bad "hist case")
 
-let () = register "C18spray" "hist" hist; register "C18sprayconc" "hist" hist
+let () = register "C18spray" "hist" hist; register "C18sprayconc" "hist" hist; register "C18spraynames" "hist" hist
